@@ -92,3 +92,81 @@ def random_graphs(U):
     n = rng.choice([6, 8, 10, 15, 30, 80, 300])
     edges = G.random_graph(rng, n, rng.choice([1, 2, 3]))
     _check(U, gmod, n, edges, [e for e in edges if rng.random() < 0.1])
+
+
+# ---- the postcondition of compute_rpo holds in every pre-state: renumbering a graph that was numbered before and then changed
+# (another entry node, an added edge, a removed node) must give a valid numbering of the CURRENT graph
+
+
+def _valid_numbering(U, g, live, root, what):
+    n = len(live)
+    nums = {x.name: x.num for x in live}
+    U.ensures("%s: the entry has number 1" % what, root.num == 1, nums=nums)
+    U.ensures("%s: the numbers are a permutation of 1..n" % what, sorted(nums.values()) == list(range(1, n + 1)), nums=nums)
+    U.ensures("%s: rpo lists the nodes by increasing number" % what, [x.num for x in g.rpo] == sorted(nums.values()) and len(g.rpo) == n)
+    order = {x.name: [y.name for y in g.all_sucs(x)] for x in live}
+    anc, seen = {}, set()
+
+    def dfs(v, stack):
+        seen.add(v)
+        anc[v] = set(stack) | {v}
+        for w in order[v]:
+            if w not in seen:
+                dfs(w, stack + [v])
+    import sys
+    sys.setrecursionlimit(10000)
+    dfs(root.name, [])
+    bad = [(a, b) for a in order for b in order[a] if not (nums[a] < nums[b]) and b not in anc.get(a, ())]
+    U.ensures("%s: every non-back edge goes from a lower to a higher number" % what, not bad, bad=bad[:5], nums=nums)
+
+
+def _all_reach(g, live, root):
+    seen, st = set(), [root]
+    while st:
+        x = st.pop()
+        if x in seen:
+            continue
+        seen.add(x)
+        st.extend(g.all_sucs(x))
+    return len(seen) == len(live)
+
+
+@unit("C19", covers=[(GR, "Graph.compute_rpo"), (GR, "Graph.post_order"), (GR, "Graph.add_edge"), (GR, "Graph.remove_node")],
+      level="bounded", samples=200,
+      note="seeded random graphs (4..12 nodes, strongly connected core so that other entries reach everything): number, then 1..3 "
+           "changes out of {move the entry, add an edge, remove a node}, renumbering after each")
+def renumber_after_changes(U):
+    gmod = U.mod(GR)
+    seed = U.int("seed", 0, 1 << 30)
+    rng = random.Random(seed)
+    n = rng.randint(4, 12)
+    edges = set(G.random_graph(rng, n, 2))
+    for a in range(n):                       # a cycle through all nodes: every node reaches every node
+        edges.add((a, (a + 1) % n))
+    g, nodes = G.build(gmod, n, sorted(edges), [])
+    live = list(nodes)
+    o = U.call(g.compute_rpo)
+    U.ensures("compute_rpo does not raise", o.ok, exc=repr(o.exc))
+    if not o.ok:
+        return
+    _valid_numbering(U, g, live, g.entry, "fresh graph")
+    for step in range(rng.randint(1, 3)):
+        kind = rng.choice(["entry", "entry", "edge", "remove"])
+        if kind == "entry":
+            g.entry = rng.choice(live)
+        elif kind == "edge":
+            g.add_edge(rng.choice(live), rng.choice(live))
+        else:
+            cand = [x for x in live if x is not g.entry]
+            if len(cand) < 2:
+                continue
+            v = rng.choice(cand)
+            g.remove_node(v)
+            live.remove(v)
+        if not _all_reach(g, live, g.entry):
+            return      # precondition of compute_rpo (all nodes reachable from the entry) no longer holds
+        o = U.call(g.compute_rpo)
+        U.ensures("compute_rpo does not raise", o.ok, exc=repr(o.exc))
+        if not o.ok:
+            return
+        _valid_numbering(U, g, live, g.entry, "after change %d (%s)" % (step + 1, kind))
